@@ -28,6 +28,13 @@ CHECKS = {
             'empty buffer); checksum functions compared with a bitwise reference incl. all 65536/256 candidate check values.',
             'Trusts vlib/refframe.py (self-checked on CRC/LRC/MBAP vectors); PDU bytes are pymodbus\' own (C01 owns them).',
             'DESIGN.md 4 C03'),
+    'C04': ('hypothesis generated layouts + model-valid request histories through every framing; oracle = register-file reference model (responses + full table dumps after every step)',
+            'Generated datastore layouts (sequential/sparse, any start, zero-mode, shared tables) and histories of up to 25 '
+            'model-valid requests FC 1-6,15,16,22,23 sent as reference-built frames through the real server-side framer, '
+            'decoded-request execute and buildPacket; each response is parsed by the independent frame parser + spec codec and '
+            'compared with the reference model, and all four real tables are dumped and compared after every step.',
+            'Trusts vlib/model.py, vlib/specpdu.py, vlib/refframe.py; only model-valid requests (C05 owns invalid ones).',
+            'DESIGN.md 4 C04'),
     'C18': ('hypothesis operation histories on blocks / slave contexts / server contexts vs a dict model; exhaustive small-block sweeps',
             'Generated histories of validate/get/set/reset on sequential and sparse blocks with boundary-directed addresses, '
             'of function-code-addressed operations on a slave context (zero-mode on/off), and of set/get/del/contains on '
